@@ -87,7 +87,7 @@ def run_complete(facts, rep):
     if not rep.anchor(R, "PolynomialRevelationProtocol::finish", fin is not None):
         return 0
     rep.fn(fin)
-    body = facts.hir[fin]
+    body = facts.inlined(fin) if hasattr(facts, "inlined") else facts.hir[fin]    # an extracted completeness predicate is read in place
     defs = Defs(body)
     bad = []
     n_eff = [0]
